@@ -431,7 +431,8 @@ def run_check(spec, argv):
     }
     if "extra_coverage" in spec:
         cov.update(spec["extra_coverage"](lines, verdicts))
-    write_evidence(pid, tier, seed, cov, spec.get("assumptions", []), time.time() - t0, nviol)
+    if not replay:
+        write_evidence(pid, tier, seed, cov, spec.get("assumptions", []), time.time() - t0, nviol)
     print(f"{pid}: tier={tier} seed={seed} theorems={pr['discharged']}/{pr['obligations']} "
           f"tie_cases={len(lines)} diffs={len(diffs)} errors={len(errors)} viols={len(viols)} "
           f"known={len(known_lines)} wall={time.time() - t0:.1f}s -> exit {exit_code}")
